@@ -28,7 +28,7 @@ ASSUMPTIONS = [
     "rejected means exactly nflows.transforms.base.InputOutsideDomain; accepted means no exception and finite outputs and log-abs-det",
 ]
 
-TBS = [1.0, 2.5, 16.0, 32.0, 100.0, 1e3, 1e4]
+TBS = [1.0, 2.5, 16.0, 32.0, 100.0, 1e3, 1e4, 1.7, 0.1]  # the last two are not representable in float32 (they round upwards)
 DT = {"float64": torch.float64, "float32": torch.float32}
 
 
@@ -58,19 +58,21 @@ def subjects(tier):
     for cls in ("PiecewiseLinearCDF", "PiecewiseQuadraticCDF", "PiecewiseCubicCDF", "PiecewiseRationalQuadraticCDF"):
         out.append((cls, {}, unit, unit))
         out.append((cls, {"shape": "4d"}, unit, unit))
-        for tb in (TBS if tier == "thorough" else [1.0, 32.0, 1e4]):
+        for tb in (TBS if tier == "thorough" else [1.0, 32.0, 1e4, 1.7]):
             out.append((cls, {"tb": tb}, ("tails", tb), ("tails", tb)))
     for cls in ("PiecewiseLinearCouplingTransform", "PiecewiseQuadraticCouplingTransform", "PiecewiseCubicCouplingTransform", "PiecewiseRationalQuadraticCouplingTransform"):
         out.append((cls, {}, unit, unit))
         out.append((cls, {"dims": "4d"}, unit, unit))
         out.append((cls, {"uncond": True}, unit, unit))
-        for tb in (TBS if tier == "thorough" else [2.5, 32.0, 1e3]):
+        for tb in (TBS if tier == "thorough" else [2.5, 32.0, 1e3, 1.7]):
             out.append((cls, {"tb": tb}, ("tails", tb), ("tails", tb)))
+        for tb in ([1.0, 2.5, 1.7, 32.0] if tier == "thorough" else [2.5]):
+            out.append((cls, {"tb": tb, "uncond": True}, ("tails", tb), ("tails", tb)))
     for cls in ("MaskedPiecewiseLinearAutoregressiveTransform", "MaskedPiecewiseCubicAutoregressiveTransform"):
         out.append((cls, {}, unit, unit))
     for cls in ("MaskedPiecewiseQuadraticAutoregressiveTransform", "MaskedPiecewiseRationalQuadraticAutoregressiveTransform"):
         out.append((cls, {}, unit, unit))
-        for tb in (TBS if tier == "thorough" else [1.0, 32.0, 1e4]):
+        for tb in (TBS if tier == "thorough" else [1.0, 32.0, 1e4, 1.7]):
             out.append((cls, {"tb": tb}, ("tails", tb), ("tails", tb)))
     return out
 
